@@ -465,6 +465,10 @@ func (g *gstate) passUse(kind string, i int) {}
 // `d1` defect the call panics for a cached xpub account while unlocked, so those accounts are left out there.
 func (g *gstate) dcacheBurst() {
 	rng := g.rng
+	if g.locked && !g.wo && rng.Intn(2) == 0 {
+		g.add("unlock p=%d", g.curPriv)
+		g.locked = false
+	}
 	sc := g.scope()
 	accts := append([]gacct{}, g.accts[sc]...)
 	rng.Shuffle(len(accts), func(i, j int) { accts[i], accts[j] = accts[j], accts[i] })
